@@ -24,11 +24,43 @@ def has_ticket_type(t):
     return t[0] == 'ticket' or any(isinstance(x, tuple) and has_ticket_type(x) for x in t[1:])
 
 
+def lookalike(t, v):
+    """the same value with every ticket replaced by its contents: a duplicable value of the same outer type shape"""
+    if t[0] == 'ticket':
+        return t[1], v[2]
+    if t[0] == 'pair':
+        (ta, va), (tb, vb) = lookalike(t[1], v[1]), lookalike(t[2], v[2])
+        return ('pair', ta, tb), ('p', va, vb)
+    if t[0] == 'option':
+        if v[0] == 'none':
+            return ('option', lookalike_type(t[1])), v
+        ti, vi = lookalike(t[1], v[1])
+        return ('option', ti), ('some', vi)
+    if t[0] == 'list':
+        items = [lookalike(t[1], x) for x in v[1]]
+        return ('list', lookalike_type(t[1])), ('list', tuple(x[1] for x in items))
+    return t, v
+
+
+def lookalike_type(t):
+    if t[0] == 'ticket':
+        return t[1]
+    return (t[0],) + tuple(lookalike_type(x) if isinstance(x, tuple) else x for x in t[1:])
+
+
 def check_no_dup(ctx, st):
-    """negative test: the model has no DUP of a ticket-carrying slot; pytezos must refuse it as well"""
+    """negative test: the model has no DUP of a ticket-carrying slot; pytezos must refuse it as well - also right after a
+    look-alike ticket-free value of the same outer shape has been duplicated (duplicability must not be remembered by shape)"""
     stack = st['stack']
     for n, slot in enumerate(stack):
         if has_ticket_type(slot[0]):
+            try:
+                lt, lv = lookalike(slot[0], slot[1])
+                primed = vmreplay.run_impl(((lt, lv),), {}, (('DUP', 1),))
+                if primed[0] != 'running':
+                    ctx.skip('look-alike DUP not accepted')
+            except Exception:
+                ctx.skip('look-alike value not constructible')
             got = vmreplay.run_impl(st['init'], st['env'], st['hist'] + (('DUP', n + 1),))
             ctx.count(('dup', st['hist'], n), nontrivial=True)
             if got[0] == 'running':
